@@ -1,4 +1,42 @@
-From Gleece Require Import Base.Bytes Model.Outcome.
+(* C14 - Every run terminates with success or a reported error, never a crash or hang.
+   The logic cores whose crash- and hang-freedom can be stated about a model are collected here;
+   the whole command (go/packages, the libraries, the file system) is exercised by the check
+   with hostile projects and is not modelled. *)
+From Gleece Require Import Base.Bytes Model.Outcome Model.Tags Proofs.TagsProofs
+     Model.Conflicts Proofs.ConflictsProofs Model.Graph Proofs.GraphProofs.
+
+(* the oracle on an observed command run *)
 Theorem C14_oracle_spec : forall o, prop_C14 o = true <-> o = OOk \/ o = OReported.
 Proof. intros o; destruct o; simpl; split; intros H; try tauto; try discriminate; destruct H; discriminate. Qed.
+
+(* validator tags: for EVERY tag string, field kind, parse oracle and initial schema, neither
+   validation converter dereferences nil (each returns a schema) *)
+Theorem C14_tags_no_panic_30 : forall pf k v c, build30 pf true k v c <> Panic.
+Proof. exact no_panic_30_fixed. Qed.
+Theorem C14_tags_no_panic_31 : forall pf k v c, build31 pf true k v c <> Panic.
+Proof. exact no_panic_31_fixed. Qed.
+Theorem C14_tags_total_30 : forall pf k v c, exists c', build30 pf true k v c = Ok c'.
+Proof. exact total_30_fixed. Qed.
+Theorem C14_tags_total_31 : forall pf k v c, exists c', build31 pf true k v c = Ok c'.
+Proof. exact total_31_fixed. Qed.
+
+(* the orphan cascade of RemoveNode (the only recursion of the symbol graph) terminates: with
+   fuel exceeding the number of reverse-dependency entries the fuelled model removes exactly the
+   least set of orphaned dependants, for every map-iteration schedule *)
+Theorem C14_remove_node_terminates : forall sc, sched_ok sc -> forall fuel s k,
+  GraphProofs.Inv s -> (List.length (rdeps s) < fuel)%nat ->
+  abs (remove_node sc fuel s k) = sp_remove_node (abs s) (k_base k).
+Proof. exact abs_remove_node. Qed.
+
+(* route-conflict detection is a structural fold: total on every route list, and its answer
+   always satisfies the conflict property *)
+Theorem C14_conflicts_total : forall es, prop_C15 es (map fst (find_conflicts_obs es)) = true.
+Proof. exact find_conflicts_prop. Qed.
+
 Print Assumptions C14_oracle_spec.
+Print Assumptions C14_tags_no_panic_30.
+Print Assumptions C14_tags_no_panic_31.
+Print Assumptions C14_tags_total_30.
+Print Assumptions C14_tags_total_31.
+Print Assumptions C14_remove_node_terminates.
+Print Assumptions C14_conflicts_total.
